@@ -188,6 +188,29 @@ func marshalConfig(c *config.PikeConfig) ([]byte, error) {
 // the harness upstreams, which listen on ephemeral ports, can take them)
 var portCursor = (os.Getpid() * 37) % 1000 // concurrent runs of the same shard start at different offsets
 
+var portLocks []string
+
+func lockPort(lock string) bool {
+	for attempt := 0; attempt < 2; attempt++ {
+		f, err := os.OpenFile(lock, os.O_CREATE|os.O_EXCL|os.O_WRONLY, 0o666)
+		if err == nil {
+			_, _ = f.WriteString(strconv.Itoa(os.Getpid()))
+			_ = f.Close()
+			return true
+		}
+		data, rerr := os.ReadFile(lock)
+		if rerr != nil {
+			return false
+		}
+		pid, _ := strconv.Atoi(strings.TrimSpace(string(data)))
+		if pid <= 0 || syscall.Kill(pid, 0) == nil {
+			return false // the owner is alive (or is just writing its id)
+		}
+		_ = os.Remove(lock)
+	}
+	return false
+}
+
 func freePorts(n int) []int {
 	shard, _ := vstat.Shard()
 	rangeBase, span := 12000, 1000
@@ -198,15 +221,30 @@ func freePorts(n int) []int {
 		span = v
 	}
 	base := rangeBase + (shard%16)*span
+	// the ports of the previous case of this process are given back
+	for _, f := range portLocks {
+		_ = os.Remove(f)
+	}
+	portLocks = nil
+	lockDir := filepath.Join(os.TempDir(), "verif-port-locks")
+	_ = os.MkdirAll(lockDir, 0o777)
 	var ports []int
 	for tries := 0; len(ports) < n && tries < 5000; tries++ {
 		p := base + portCursor%span
 		portCursor++
+		// another run of the checks on this machine may use the same ranges: a port is taken
+		// under a lock file that names its owner (stale locks of dead processes are reclaimed)
+		lock := filepath.Join(lockDir, strconv.Itoa(p))
+		if !lockPort(lock) {
+			continue
+		}
 		l, err := net.Listen("tcp", fmt.Sprintf("127.0.0.1:%d", p))
 		if err != nil {
+			_ = os.Remove(lock)
 			continue
 		}
 		_ = l.Close()
+		portLocks = append(portLocks, lock)
 		ports = append(ports, p)
 	}
 	if len(ports) < n {
